@@ -379,3 +379,34 @@ Proof.
   - intros (t & Hin & Hn & Hc). exists t. split; [exact Hin|]. unfold transpose_figure_nc. rewrite Hn.
     pose proof (transpose_figure_spec t k) as S. rewrite Hc in S. exact S.
 Qed.
+
+(** * Non-vacuity witnesses (searched for in the regenerated tables, so that adding or
+    reordering chord kinds / modification types does not break them) *)
+Ltac search_idx n tac :=
+  first [ exists (Z.of_nat n); tac
+        | match n with S ?m => search_idx m tac end ].
+
+(* F#m7(b5)/A up 3 is Am7(b5)/C: pitches {6,9,0,4} -> {9,0,3,7}, diminished before and after *)
+Lemma chord_example :
+  exists kind mi,
+    let c := mkChord (SF, 1) kind [(mi, 5)] (Some (SA, 0)) in
+    let c' := mkChord (SA, 0) kind [(mi, 5)] (Some (SC, 0)) in
+    transpose_chord c 3 = Some c' /\
+    chord_pitches c = Some [6; 9; 0; 4] /\ chord_quality c = Some CHORD_QUALITY_DIMINISHED /\
+    chord_pitches c' = Some [9; 0; 3; 7] /\ chord_quality c' = Some CHORD_QUALITY_DIMINISHED /\
+    chord_of_code (code_of_chord c) = Some c.
+Proof.
+  search_idx 100%nat ltac:(search_idx 12%nat ltac:(vm_compute; repeat split; reflexivity)).
+Qed.
+
+(* adding a degree that is already present is a ChordSymbolError for the pitch query, before and
+   after transposition, while transposition itself succeeds *)
+Lemma chord_error_example :
+  exists kind mi,
+    let c := mkChord (SC, 0) kind [(mi, 3)] None in
+    chord_of_code (code_of_chord c) = Some c /\ chord_pitches c = None /\
+    transpose_chord c 1 = Some (mkChord (SD, -1) kind [(mi, 3)] None) /\
+    chord_pitches (mkChord (SD, -1) kind [(mi, 3)] None) = None.
+Proof.
+  search_idx 100%nat ltac:(search_idx 12%nat ltac:(vm_compute; repeat split; reflexivity)).
+Qed.
